@@ -373,6 +373,19 @@ func catalog(p ScenParams) *WSpec {
 		if ps := w.proc("p"); ps != nil {
 			ps.FromStr["a"][len(ps.FromStr["a"])-1] = map[string]string{"badpath": "b c", "badpath-nonascii-letter": "r\u00e9s", "badpath-nonascii-digit": "n\u0663", "badpath-glob": "b*", "badpath-dollar": "b$c"}[p.Extra]
 		}
+	case "notdir": // ... an output inside "blk/", where blk is an existing regular FILE (stat of the output answers ENOTDIR)
+		if ps := w.proc("p"); ps != nil {
+			for i := range ps.Outs {
+				ps.Outs[i].Pattern = "blk/{i:in|basename}." + ps.Outs[i].Name
+			}
+			w.PreFiles = map[string]string{"blk": "a regular file"}
+		}
+	case "longname": // ... an output whose file name is longer than the file system allows (stat answers ENAMETOOLONG)
+		if ps := w.proc("p"); ps != nil {
+			for i := range ps.Outs {
+				ps.Outs[i].Pattern = "{i:in|basename}." + strings.Repeat("x", 260) + "." + ps.Outs[i].Name
+			}
+		}
 	case "missingtag": // ... tag placeholder without a tag
 		if ps := w.proc("p"); ps != nil {
 			ps.CmdSuffix = " -- x={t:nosuchtag}"
